@@ -58,21 +58,26 @@ def _run(case, scratch):
                                     explain="deviations %r" % (case["devs"],)))
     doc10 = v10.apply(case["devs"])
     exp, tokens = ref.expect_document(doc10)
-    sources = [("XML", "stringio", v10.to_xml(doc10, header=False)), ("XML", "file", v10.to_xml(doc10))]
+    sources = [("XML", "stringio", v10.to_xml(doc10, header=False)), ("XML", "file", v10.to_xml(doc10)),
+               ("XML", "stringio-with-declaration", v10.to_xml(doc10))]
     if not v10.duplicate_keys_lost(doc10):
         sources += [("JSON", "file", v10.to_json(doc10)), ("YAML", "file", v10.to_yaml(doc10)),
                     ("JSON", "file-native-scalars", v10.to_json(doc10, True)),
                     ("YAML", "file-native-scalars", v10.to_yaml(doc10, True))]
+        aliased = v10.to_yaml(doc10, share=True)
+        if "&id" in aliased:
+            sources.append(("YAML", "file-shared-parts", aliased))
     execs = 0
     for fmt, how, text in sources:
         path = os.path.join(scratch, "src." + fmt.lower())
         for entry in ("convert", "str", "write_to_file", "convert-twice", "convert-then-write_to_file"):
             if entry == "str" and fmt != "XML":
                 continue
-            if entry in ("convert-twice", "convert-then-write_to_file") and how == "file-native-scalars":
+            if entry in ("convert-twice", "convert-then-write_to_file") and how in ("file-native-scalars",
+                                                                                   "stringio-with-declaration"):
                 continue
             label = "%s:%s:%s" % (fmt, how, entry)
-            if how == "stringio":
+            if how.startswith("stringio"):
                 src = io.StringIO(text)
                 src.seek(3)
             else:
@@ -106,7 +111,7 @@ def _run(case, scratch):
                 fail("conversion-raises", label, "%s: %s" % (type(exc).__name__, str(exc)[:160]))
                 continue
             # the source is never modified
-            if how == "stringio":
+            if how.startswith("stringio"):
                 if src.getvalue() != text or src.tell() != 3:
                     fail("source-modified", label, "StringIO content or position changed")
             else:
